@@ -5,7 +5,9 @@
 //!  b. well-formed artefacts of another session, another server and - where lengths agree - another cipher suite fed
 //!     to every step;
 //!  c. a fixed alphabet of 256 tape-derived strings per decoder with lengths spread over 0..len+64;
-//!  d. every length in {0, 1, 255, 256, 65535, 65536, 65537, 131072} for every length-carrying parameter of every step.
+//!  d. every length in {0, 1, 255, 256, 65535, 65536, 65537, 131072} for every length-carrying parameter of every step;
+//!  e. the key-pair API (PublicKey, PrivateKey, KeyPair, Diffie-Hellman, their serde forms, new_with_key, seeded
+//!     derivation) on all truncations, extensions, bit flips and 256 tape strings of a public and a private key.
 //! Oracle: every call returns Ok or Err (no panic, within the time limit); identities and contexts above 65535 bytes
 //! are refused; with a password above 65535 bytes no registration or login completes, and nothing produced for an
 //! over-long input equals what is produced for that input truncated to, or reduced modulo, 65536 bytes.
@@ -287,6 +289,74 @@ fn sweep_lengths(api: &Api, seed: u64, cx: &mut Cx) {
     cx.sample(json!({"suite": api.name(), "sweep": "d", "lengths": lens, "parameters": ["password (4 steps)", "credential identifier (2 steps)", "client identity (3 steps)", "server identity (3 steps)", "context (2 steps)"]}));
 }
 
+/// sweep e: the key-pair API (PublicKey / PrivateKey / KeyPair / Diffie-Hellman) on mutated and arbitrary byte strings
+fn sweep_keys(api: &Api, tier: Tier, seed: u64, cx: &mut Cx) {
+    use crate::adapter::Codec;
+    let sp = api.spec;
+    let f = match honest(api, seed, "c12/e", &setting(0)) {
+        Ok(f) => f,
+        Err(e) => {
+            cx.violate_case("honest-step/error", e, json!({}));
+            return;
+        }
+    };
+    cx.context_done();
+    let sk = sp.field(Kind::Setup, "server_sk").of(&f.setup).to_vec();
+    let pk = f.spk.clone();
+    for (what, base) in [("public key", &pk), ("private key", &sk)] {
+        let mut muts: Vec<(serde_json::Value, Vec<u8>)> = vec![];
+        for l in 0..base.len() {
+            muts.push((json!({"truncate_to": l}), base[..l].to_vec()));
+        }
+        for extra in 1..=8usize {
+            let mut m = base.clone();
+            m.extend(std::iter::repeat(0x5au8).take(extra));
+            muts.push((json!({"extend_by": extra}), m));
+        }
+        for i in 0..base.len() {
+            for bit in if tier.thorough() { (0..8).collect::<Vec<u8>>() } else { vec![0, 7] } {
+                let mut m = base.clone();
+                m[i] ^= 1 << bit;
+                muts.push((json!({"flip_bit": [i, bit]}), m));
+            }
+        }
+        for k in 0..256usize {
+            let len = (k * (base.len() + 64)) / 255;
+            let mut m = vec![0u8; len];
+            Tape::seeded(seed, &format!("c12/key/{}/{}", what, k)).fill_bytes(&mut m);
+            muts.push((json!({"tape_string": k, "len": len}), m));
+        }
+        muts.push((json!("all-zero"), vec![0u8; base.len()]));
+        muts.push((json!("all-ff"), vec![0xffu8; base.len()]));
+        for (how, m) in muts {
+            if !cx.state(&(what, &m)) {
+                continue;
+            }
+            cx.begin_case(json!({"api": what, "mutation": how, "bytes": hex::encode(&m)}));
+            let jsonb = serde_json::to_vec(&m.iter().map(|x| json!(*x)).collect::<Vec<_>>()).unwrap();
+            if what == "public key" {
+                judge(cx, api.ke_pk_recode(&m).map(|_| ()));
+                judge(cx, api.ke_dh(&sk, &m).map(|_| ()));
+                judge(cx, api.ke_pk_serde(&Blob::new(Codec::Bincode, m.clone())).map(|_| ()));
+                judge(cx, api.ke_pk_serde(&Blob::new(Codec::Json, jsonb)).map(|_| ()));
+            } else {
+                judge(cx, api.ke_sk_recode(&m).map(|_| ()));
+                judge(cx, api.ke_keypair_pk(&m).map(|_| ()));
+                judge(cx, api.ke_public_key(&m).map(|_| ()));
+                judge(cx, api.ke_dh(&m, &pk).map(|_| ()));
+                judge(cx, api.ke_sk_serde(&Blob::new(Codec::Bincode, m.clone())).map(|_| ()));
+                judge(cx, api.ke_sk_serde(&Blob::new(Codec::Json, jsonb)).map(|_| ()));
+                judge(cx, api.setup_with_key(&mut Tape::seeded(seed, "c12/e/swk"), &m).map(|_| ()));
+                if m.len() == sk.len() {
+                    judge(cx, api.ke_derive(&m).map(|_| ()));
+                }
+            }
+            cx.drain_panics();
+        }
+    }
+    cx.sample(json!({"suite": api.name(), "sweep": "e", "apis": ["PublicKey::deserialize", "PrivateKey::deserialize", "KeyPair::from_private_key_slice", "KeGroup::public_key", "SecretKey::diffie_hellman", "serde of both key types", "ServerSetup::new_with_key", "derive_auth_keypair"]}));
+}
+
 pub fn run(tier: Tier, seed: u64) -> i32 {
     let t0 = Instant::now();
     let mut tot = Totals::default();
@@ -300,6 +370,7 @@ pub fn run(tier: Tier, seed: u64) -> i32 {
     let apis = all_apis();
     tot.merge(fw::run_items("C12", &apis, |a| a.name().to_string(), |api, cx| sweep_foreign(api, seed, cx)));
     tot.merge(fw::run_items("C12", &apis, |a| a.name().to_string(), |api, cx| sweep_lengths(api, seed, cx)));
+    tot.merge(fw::run_items("C12", &apis, |a| a.name().to_string(), |api, cx| sweep_keys(api, tier, seed, cx)));
     if tot.slow_calls > 0 {
         tot.machinery_errors.push(format!("{} call(s) exceeded the {} ms limit (max {} ms): re-run to confirm; a reproducible hang is a C12 violation", tot.slow_calls, crate::api::SLOW_MS, tot.max_call_ms));
     }
